@@ -44,7 +44,7 @@ def literal(attr, k):
     return N(10 + k)
 
 
-def build(attr, depth, present, named, shadow=False):
+def build(attr, depth, present, named, shadow=False, tchain=False):
     """present: set of level names; named: the level whose expression is the name q (or None).
     Returns (Lib, target class, list of (level, Mod owner list, index) for spelling control)."""
     names = level_names(depth)
@@ -63,7 +63,12 @@ def build(attr, depth, present, named, shadow=False):
     classes = []
     xtype = "Real"
     if "T" in present and attr != "value":
-        classes.append(Cls("TT", kind="type", base="Real", mods=[Mod(attr, val("T"))]))
+        if tchain:
+            # alias of an alias: the modification sits on the inner type definition
+            classes.append(Cls("TT0", kind="type", base="Real", mods=[Mod(attr, val("T"))]))
+            classes.append(Cls("TT", kind="type", base="TT0"))
+        else:
+            classes.append(Cls("TT", kind="type", base="Real", mods=[Mod(attr, val("T"))]))
         xtype = "TT"
     # the class that declares x
     x = Comp("x", xtype, prefixes=("parameter",) if attr == "value" else ())
@@ -174,6 +179,9 @@ def programs(tier):
                                     flipsets.add(tuple(sorted(i for c in combo for i in c)))
                         for fl in sorted(flipsets):
                             jobs.append((attr, depth, tuple(sorted(present, key=names.index)), named, fl, False))
+                        if "T" in present and attr != "value":
+                            # the element's type is an alias of an alias
+                            jobs.append((attr, depth, tuple(sorted(present, key=names.index)), named, (), False, True))
                         if named in ("C", "O", "E", "E0"):
                             # same hierarchy with the class of m named like the class that contains m
                             jobs.append((attr, depth, tuple(sorted(present, key=names.index)), named, (), True))
@@ -184,7 +192,7 @@ def spelling_kind(job):
     """Class of the spelling for signatures: per flipped link whether it is an attribute link."""
     attr, depth, present, named, flips = job[:5]
     if not flips:
-        return "default-spelling" + (":same-short-class-name" if len(job) > 5 and job[5] else "")
+        return "default-spelling" + (":same-short-class-name" if len(job) > 5 and job[5] else "") + (":alias-of-alias" if len(job) > 6 and job[6] else "")
     lv_of_link = link_levels((attr, depth, frozenset(present), named))
     kinds = set()
     # the last link of a level's path is the attribute link (for attribute modifications)
@@ -201,12 +209,13 @@ def spelling_kind(job):
 def check(job):
     attr, depth, present, named, flips = job[:5]
     shadow = bool(job[5]) if len(job) > 5 else False
-    lib, target = build(attr, depth, frozenset(present), named, shadow)
+    tchain = bool(job[6]) if len(job) > 6 else False
+    lib, target = build(attr, depth, frozenset(present), named, shadow, tchain)
     text = lib.text(Spelling(flips=flips))
-    case = {"job": [attr, depth, list(present), named, list(flips), shadow], "text": text}
+    case = {"job": [attr, depth, list(present), named, list(flips), shadow, tchain], "text": text}
     flat = F.flatten(lib, target)
     exp = flatobs.expected(flat)
-    group = (attr, depth, present, named, shadow)
+    group = (attr, depth, present, named, shadow, tchain)
     try:
         obs = flatobs.normalise_obs(flatobs.observe(text, target))
     except Exception as e:
@@ -248,7 +257,7 @@ def run(ctx):
     # (ii) spelling groups: all accepted members flatten to one canonical model
     for g, canons in groups.items():
         if len(canons) > 1:
-            ctx.violation("spellings-differ:%s" % g[0], "accepted spellings of %r flatten to %d different models" % (g, len(canons)), {"group": [g[0], g[1], list(g[2]), g[3], g[4]]})
+            ctx.violation("spellings-differ:%s" % g[0], "accepted spellings of %r flatten to %d different models" % (g, len(canons)), {"group": [g[0], g[1], list(g[2]), g[3], g[4], g[5]]})
     for k in (0, len(jobs) // 2, len(jobs) - 1):
         ctx.sample({"job": jobs[k], "text": res[k]["text"], "outcome": res[k]["outcome"]})
     ctx.coverage.update(
@@ -276,7 +285,8 @@ def replay(case):
         return True
     a, d, p, n, f = case["job"][:5]
     sh = case["job"][5] if len(case["job"]) > 5 else False
-    r = check((a, d, tuple(p), n, tuple(f), sh))
+    tc = case["job"][6] if len(case["job"]) > 6 else False
+    r = check((a, d, tuple(p), n, tuple(f), sh, tc))
     print(r["text"])
     print(r["outcome"], [m.split("\n")[0] for _, m, _ in r["viol"]] or "ok")
     return not r["viol"]
